@@ -71,7 +71,9 @@ class SequentialCB(Evaluator):
     def _required(self, has_score:bool) -> set:
         learn,eval = self._learn,self._eval
 
-        pred = (learn and learn != 'off') or (eval and (eval != 'ips' or not has_score))
+        #recording the learner's action or probability takes a prediction too (see should_pred in _results)
+        rcrd = eval and ('action' in self._record or 'probability' in self._record)
+        pred = (learn and learn != 'off') or (eval and (eval != 'ips' or not has_score)) or rcrd
         off  = (learn and learn != 'on')  or (eval and eval != 'on')
         rwds = (learn == 'on')            or (eval == 'on')
 
